@@ -286,6 +286,33 @@ def leg1(chk: harness.Check, case: Case, rng: Any, n_strings: int) -> bool:
     return True
 
 
+_FUNCTION_RE = re.compile(r"\b(Construct\w+?Program)\b")
+
+
+def _index_of_function(name: str) -> Optional[int]:
+    """Map ``ConstructMatchP<i>Program`` (named by the repo's own naming) to ``i``."""
+    global _FUNCTION_INDEX
+    if _FUNCTION_INDEX is None:
+        from aas_core_codegen.common import Identifier
+        from aas_core_codegen.cpp import naming as cpp_naming
+
+        _FUNCTION_INDEX = {
+            str(cpp_naming.function_name(Identifier(f"construct_match_p{i}_program"))): i
+            for i in range(2000)
+        }
+    return _FUNCTION_INDEX.get(name)
+
+
+_FUNCTION_INDEX: Optional[Dict[str, int]] = None
+
+
+def compile_error_class(pattern: str) -> str:
+    """Mechanism class of a pattern whose emitted C++ does not compile."""
+    if "*/" in pattern:
+        return "pattern-text-closes-block-comment"
+    return "other"
+
+
 _SUSPECT_RE = re.compile(r"\(\)|\(\||\|\)|\|\|")
 _SURROGATE_RE = re.compile(r"\\u[dD][89a-fA-F][0-9a-fA-F]{2}")
 
@@ -358,15 +385,15 @@ SAN = ["-fsanitize=address,undefined", "-fno-sanitize-recover=all", "-fno-omit-f
 BASE = ["-std=c++17", "-w"]
 # what is compiled how: the matcher under test with optimisation, sanitizers and
 # function-entry hooks (a *logical* step counter); the program constructors with
-# sanitizers but without optimisation (they only build vectors; -O1 triples the
-# compile time); common.cpp (14k lines of string concatenation helpers used for error
+# AddressSanitizer but without optimisation and without UBSan (they only build vectors
+# at start-up; -O1 triples and UBSan doubles the compile time); common.cpp (14k lines of string concatenation helpers used for error
 # messages only) without instrumentation.
 FLAGS = {
     "common.cpp": ["-O0"],
     "revm.cpp": ["-O1", "-g1", *SAN, "-finstrument-functions",
                  "-finstrument-functions-exclude-file-list=/usr/include,/usr/lib"],
     "driver.cpp": ["-O1", "-g1", *SAN],
-    "pattern.cpp": ["-O0", "-g1", *SAN],
+    "pattern.cpp": ["-O0", "-g1", "-fsanitize=address", "-fno-omit-frame-pointer"],
     "table.cpp": ["-O0", *SAN],
 }
 SHARED_SOURCES = ("src/common.cpp", "src/revm.cpp", f"include/{NAMESPACE}/revm.hpp",
@@ -604,9 +631,25 @@ def leg2(
             return
     chk.count("patterns_emitted_as_cpp", len(cases))
     try:
-        _build_and_compare(chk, cases, res, work, shared, wait_until, utf16=False)
+        offenders = _build_and_compare(chk, cases, res, work, shared, wait_until, utf16=False)
     finally:
         res.cleanup()
+    if offenders:
+        # emitted code of some patterns does not compile: once more without them
+        chk.count("cpp_batches_rebuilt_without_noncompiling_patterns")
+        cases = [c for i, c in enumerate(cases) if i not in set(offenders)]
+        if not cases:
+            return
+        with Phase(chk, "generate_cpp"):
+            res = generate_cpp([c.pattern for c in cases])
+        if res.exc is not None or res.rc != 0:
+            res.cleanup()
+            chk.harness_error("batch failed to generate after dropping non-compiling patterns")
+            return
+        try:
+            _build_and_compare(chk, cases, res, work, shared, wait_until, utf16=False, retry=False)
+        finally:
+            res.cleanup()
 
     # The same programs as emitted for 16-bit wide characters (the branch under
     # ``#if __WCHAR_MAX__ <= 0x10000``), for the patterns where it differs: compiled
@@ -623,15 +666,16 @@ def leg2(
     work16 = work / "utf16"
     work16.mkdir(exist_ok=True)
     try:
-        _build_and_compare(chk, sub, res16, work16, shared, wait_until, utf16=True)
+        _build_and_compare(chk, sub, res16, work16, shared, wait_until, utf16=True, retry=False)
     finally:
         res16.cleanup()
 
 
 def _build_and_compare(
     chk: harness.Check, cases: List[Case], res: driver.RunResult, work: pathlib.Path,
-    shared: pathlib.Path, wait_until: float, utf16: bool,
-) -> None:
+    shared: pathlib.Path, wait_until: float, utf16: bool, retry: bool = True,
+) -> Optional[List[int]]:
+    """Return the indices of patterns whose emitted code does not compile (if known)."""
     tag = "-utf16" if utf16 else ""
     ctr = "_utf16" if utf16 else ""
     with Phase(chk, "build"):
@@ -641,15 +685,27 @@ def _build_and_compare(
         )
     if binary is None:
         if stage == "pattern.cpp" and err != "compiler timeout":
-            chk.violation(
-                f"emit-cpp{tag}/pattern.cpp-does-not-compile",
-                {"patterns": [c.pattern for c in cases][:50], "compiler": err[-1500:]},
+            offenders = sorted(
+                {i for i in map(_index_of_function, _FUNCTION_RE.findall(err))
+                 if i is not None and i < len(cases)}
             )
+            for i in offenders:
+                chk.violation(
+                    f"emit-cpp{tag}/pattern.cpp-does-not-compile/" + compile_error_class(cases[i].pattern),
+                    witness(cases[i], compiler=err[-1500:]),
+                )
+            if offenders and retry:
+                return offenders
+            if not offenders:
+                chk.violation(
+                    f"emit-cpp{tag}/pattern.cpp-does-not-compile/unlocated",
+                    {"patterns": [c.pattern for c in cases][:50], "compiler": err[-1500:]},
+                )
         elif stage in ("revm.cpp", "common.cpp") and err != "compiler timeout":
             chk.violation(f"emit-cpp/{stage}-does-not-compile", {"compiler": err[-1500:]})
         else:
             chk.mark_inconclusive(f"C++ build failed at {stage}: {err[-300:]}")
-        return
+        return None
     chk.count("cpp_binaries_built" + ctr)
     lines: List[str] = []
     index: List[Tuple[int, int]] = []
@@ -807,6 +863,32 @@ def run_probes(chk: harness.Check, cpp: bool) -> None:
             chk.count("patterns_dropped_load_model_rejects")
             chk.hist("load_model_rejections", _first_line(single.stderr))
         single.cleanup()
+    if not cpp:
+        return
+    for pattern in wl.COMPILE_PROBES:
+        case = Case("probe", pattern, {"probe"})
+        chk.count("probes")
+        if not leg1(chk, case, rng, 12) or not case.cpp_fit:
+            continue
+        single = generate_cpp([pattern])
+        chk.count("cpp_generator_single_runs")
+        if single.exc is None and single.rc == 0:
+            proc = _run(
+                [CXX, *BASE, "-fsyntax-only", "-I", str(single.output_dir / "include"),
+                 "-I", str(NATIVE), str(single.output_dir / "src" / "pattern.cpp")], 600.0,
+            )
+            chk.count("cpp_syntax_only_compilations")
+            if proc is not None and proc.returncode != 0:
+                chk.violation(
+                    "emit-cpp/pattern.cpp-does-not-compile/" + compile_error_class(pattern),
+                    witness(case, compiler=proc.stderr.decode("utf-8", "replace")[-1500:]),
+                )
+        elif single.exc is not None:
+            chk.violation(
+                "emit-cpp/" + harness.crash_signature(single.exc),
+                witness(case, exception=harness.format_exc(single.exc, 6)),
+            )
+        single.cleanup()
 
 
 def main(argv) -> int:
@@ -820,7 +902,7 @@ def main(argv) -> int:
             "reference interpreter of the documented instruction semantics alone"
         )
 
-    n_generated = chk.pick(220, 4000)
+    n_generated = chk.pick(180, 4000)
     n_strings = chk.pick(40, 100)
     # few, large translation units: every g++ run pays ~8 s for the headers alone
     batch = chk.pick(120, 160)
